@@ -951,7 +951,7 @@ func Run(ctx *common.Ctx) {
 	// 1, 2, 3 ... are shifts of one another; re-seeding from an output of the stream separates them
 	g := &gen{ctx: ctx, r: common.NewRng(ctx.Rng.Next())}
 	tables := writeTables(ctx)
-	nInt, nWords, nFlow, nAS, nPrint := 700, 300, 1300, 200, 250
+	nInt, nWords, nFlow, nAS, nPrint := 1000, 400, 2400, 300, 250
 	if ctx.Thorough() {
 		nInt, nWords, nFlow, nAS, nPrint = 12000, 6000, 24000, 3000, 3000
 	}
